@@ -22,6 +22,7 @@ type SpecEnv struct {
 	pkg   *ssa.Package
 	depth int
 	pre   *State // loop invariants: the state at loop entry, for pre(e) and newer(x)
+	prev  *State // back edge of a loop: the state at the head of the current iteration, for prev(e)
 	loc   *State // state in which local variables are looked up (old(e) keeps the current locals)
 }
 
@@ -402,6 +403,12 @@ func (e *SpecEnv) pkgObject(pkg *ssa.Package, o types.Object, hint types.Type) V
 func (e *SpecEnv) unary(n *SUnary, hint types.Type) Val {
 	c := e.c
 	switch n.Op {
+	case "&": // address of an lvalue (a structural pointer)
+		lv := e.lvalue(n.X)
+		if lv.path == nil || lv.whole {
+			sfail("cannot take the address of %s", n.X)
+		}
+		return Val{T: types.NewPointer(lv.t), P: lv.path}
 	case "!":
 		return Val{T: types.Typ[types.Bool], S: not(e.evalBool(n.X))}
 	case "-":
@@ -1033,6 +1040,14 @@ func (e *SpecEnv) call(n *SCall, hint types.Type) Val {
 		fn := "ifaceval_" + sanitize(srt)
 		c.decl("fn:"+fn, fmt.Sprintf("(declare-fun %s (Int) %s)", fn, srt))
 		return Val{T: t, S: fmt.Sprintf("(%s %s)", fn, v.S)}
+	case "prev": // value of an expression at the head of the current iteration (back-edge obligations only)
+		if e.prev == nil {
+			sfail("prev() is only available in loop asserts and in invariant preservation")
+		}
+		o := e.sub()
+		o.st = e.prev
+		o.loc = e.prev
+		return o.eval(n.Args[0], hint)
 	case "pre": // value of an expression at loop entry (loop invariants only)
 		if e.pre == nil {
 			sfail("pre() is only available in loop invariants")
@@ -1174,7 +1189,7 @@ func (e *SpecEnv) callPure(pf *PureFunc, args []SExpr, hint types.Type) Val {
 	if len(args) != len(pf.Params) {
 		sfail("%s expects %d arguments", pf.Name, len(pf.Params))
 	}
-	penv := &SpecEnv{f: e.f, c: c, vars: map[string]Val{}, st: e.st, old: e.old, pkg: e.pkg, depth: e.depth + 1, pre: e.pre, loc: e.loc}
+	penv := &SpecEnv{f: e.f, c: c, vars: map[string]Val{}, st: e.st, old: e.old, pkg: e.pkg, depth: e.depth + 1, pre: e.pre, prev: e.prev, loc: e.loc}
 	if pp := c.eng.ssaPkg(pf.Pkg); pp != nil {
 		penv.pkg = pp
 	}
